@@ -471,6 +471,49 @@ def found_tests(g, var):
     return out
 
 
+def scenario_paths(g, scenario, start=None, limit=3000, skip_labels=('exc',)):
+    """all simple paths start(entry) -> exit / raise-exit on which every test whose atoms the *scenario* (atom text -> bool) decides
+    takes the decided outcome; other tests fork.  Short-circuit `and` / `or` are evaluated with Python's rules."""
+    def decide(test):
+        co, lab = truth(test)
+        if isinstance(co, ast.BoolOp):
+            rs = [decide(v) for v in co.values]
+            if isinstance(co.op, ast.And):
+                r = False if any(x is False for x in rs) else (True if all(x is True for x in rs) else None)
+            else:
+                r = True if any(x is True for x in rs) else (False if all(x is False for x in rs) else None)
+        else:
+            a_, v_ = atom_key(co, True)
+            r = None if a_ not in scenario else (scenario[a_] == v_)
+        if r is None:
+            return None
+        return r if lab == 'true' else not r
+    out = []
+    count = [0]
+
+    def walk(n, trail):
+        count[0] += 1
+        if count[0] > limit:
+            raise AnalysisError('scenario_paths: too many paths')
+        if n is g.exit or n is g.raise_exit:
+            out.append(trail)
+            return
+        labs = None
+        if n.kind == 'test' and n.ast is not None:
+            r = decide(n.ast)
+            if r is not None:
+                labs = ('true',) if r else ('false',)
+        for s_, l_ in n.succ:
+            if l_ in skip_labels or s_ in trail:
+                continue
+            if labs is not None and l_ in ('true', 'false') and l_ not in labs:
+                continue
+            walk(s_, trail + [s_])
+    s0 = start or g.entry
+    walk(s0, [s0])
+    return out
+
+
 def dict_contents_at(g, node, var, scenario, limit=4000):
     """possible contents {key: value text} of the local dict *var* when control reaches *node*, for the truth assignment
     *scenario* (atom text of lib.atom_key -> bool; tests over other atoms are explored both ways).  Understood writes:
@@ -574,6 +617,82 @@ def dict_contents_at(g, node, var, scenario, limit=4000):
                 continue
             stack.append((s_, it2))
     return None if bad[0] else outs
+
+
+def equivalents(f):
+    """classes of expressions (locals, parameters, self attributes) that hold the same value because one was assigned from the
+    other by a plain `a = b` / `self.x = b` / `a = self.x` and both are assigned at most once in the function.  Returns a function
+    cls(text) -> frozenset of texts.  (Only valid up to the next call that may change the attribute: callers use it for what is
+    read right after the assignments.)"""
+    from .astx import assigned_targets
+    counts = {}
+    pairs = []
+    for n in iter_nodes(f.node):
+        if isinstance(n, (ast.Assign, ast.AugAssign, ast.For, ast.AsyncFor, ast.With, ast.AsyncWith)):
+            try:
+                tgs = assigned_targets(n)
+            except Exception:
+                tgs = []
+            flat = []
+            for t in tgs:
+                flat.extend(t.elts if isinstance(t, (ast.Tuple, ast.List)) else [t])
+            for t in flat:
+                counts[norm(t)] = counts.get(norm(t), 0) + 1
+            if isinstance(n, ast.Assign) and len(n.targets) == 1 and isinstance(n.targets[0], (ast.Name, ast.Attribute)) and isinstance(n.value, (ast.Name, ast.Attribute)):
+                pairs.append((norm(n.targets[0]), norm(n.value)))
+    parent = {}
+
+    def find(x):
+        parent.setdefault(x, x)
+        while parent[x] != x:
+            parent[x] = parent[parent[x]]
+            x = parent[x]
+        return x
+    for a, b in pairs:
+        if counts.get(a, 0) <= 1 and counts.get(b, 0) <= 1:
+            parent[find(a)] = find(b)
+
+    def cls(text):
+        r = find(text)
+        return frozenset(x for x in list(parent) if find(x) == r) | {text}
+    return cls
+
+
+def log_control_ok(f):
+    """_log_control(s): what reaches _log is the parameter itself in bytes mode and parameter.decode(self.encoding, ...) in text mode,
+    with direction 'send' -- whether the parameter is rebound or a second local is used.  Returns (ok, witness)."""
+    from .astx import assigned_names
+    g = f.cfg
+    p = f.params[1]
+    logs = [k for k in calls_in(f.node) if callee_last(k) == '_log']
+    if len(logs) != 1 or len(logs[0].args) < 2 or not (isinstance(logs[0].args[1], ast.Constant) and logs[0].args[1].value == 'send'):
+        return False, 'expected exactly one _log(<value>, \'send\')'
+    a = logs[0].args[0]
+    if not isinstance(a, ast.Name):
+        return False, 'logged value %s' % norm(a)
+    L = a.id
+    defs = [n for n in g.nodes if n.kind == 'stmt' and isinstance(n.ast, ast.Assign) and L in assigned_names(n.ast)]
+    ENC = 'self.encoding is None'
+
+    def is_decode(e):
+        return isinstance(e, ast.Call) and isinstance(e.func, ast.Attribute) and e.func.attr == 'decode' and is_name(e.func.value, p) \
+            and e.args and norm(e.args[0]) == 'self.encoding'
+    seen = set()
+    for d in defs:
+        cs = conditions(g, d)
+        if is_decode(d.ast.value) and (ENC, False) in cs:
+            seen.add('text')
+        elif is_name(d.ast.value, p) and L != p and (ENC, True) in cs:
+            seen.add('bytes')
+        else:
+            return False, 'the logged value is set by `%s` under %s' % (norm(d.ast), sorted(cs))
+    if L == p:
+        seen.add('bytes')          # not rebound in bytes mode: the parameter itself
+    if seen != {'text', 'bytes'}:
+        return False, 'covers %s' % sorted(seen)
+    if any((p if L != p else None) in assigned_names(n.ast) for n in g.nodes if n.kind == 'stmt' and n.ast is not None and isinstance(n.ast, (ast.Assign, ast.AugAssign))):
+        return False, 'the parameter is rebound as well'
+    return True, 'bytes mode: the byte itself; text mode: %s.decode(self.encoding, ...)' % p
 
 
 def other(label):
